@@ -640,6 +640,13 @@ class WebSocketResponse(StreamResponse, Generic[_DecodeText]):
             raise RuntimeError("Call .prepare() first")
 
         receive_timeout = timeout or self._receive_timeout
+        # A single deadline for the whole call: the PING/PONG frames that are
+        # handled below must not re-arm the timeout.
+        deadline = (
+            asyncio.get_running_loop().time() + receive_timeout
+            if receive_timeout
+            else None
+        )
         while True:
             if self._waiting:
                 raise RuntimeError("Concurrent call to receive() is not allowed")
@@ -660,7 +667,7 @@ class WebSocketResponse(StreamResponse, Generic[_DecodeText]):
                         # Timeout() object can take almost 50% of the
                         # run time in this loop so we avoid it if
                         # there is no read timeout.
-                        async with async_timeout.timeout(receive_timeout):
+                        async with async_timeout.timeout_at(deadline):
                             msg = await self._reader.read()
                     else:
                         msg = await self._reader.read()
@@ -709,7 +716,7 @@ class WebSocketResponse(StreamResponse, Generic[_DecodeText]):
             elif msg.type is WSMsgType.PING and self._autoping:
                 # The peer may have stopped reading: the automatic reply is
                 # bounded by the receive timeout as well.
-                async with async_timeout.timeout(receive_timeout or None):
+                async with async_timeout.timeout_at(deadline):
                     await self.pong(msg.data)
                 continue
             elif msg.type is WSMsgType.PONG and self._autoping:
